@@ -6,7 +6,7 @@ kind   rapid  : rapid-driven property (checks_<tier> cases per shard, shards_<ti
        script : external script (C13 kernel topologies)
 """
 
-LEVELS = {}
+LEVELS = {"C10": "fault_enumeration"}
 
 def rapid(run, quick, thorough, shards=16, **kw):
     d = {"run": "^%s$" % run, "name": run, "kind": "rapid", "checks_quick": quick, "checks_thorough": thorough, "shards_thorough": shards}
@@ -26,11 +26,12 @@ def enum(run, **kw):
 PROPS = {
     "C01": {"jobs": [rapid("TestC01", 1500, 20000), enum("TestC01Sweep")]},
     "C02": {"jobs": [rapid("TestC02", 1500, 15000), enum("TestC02Product")]},
-    "C03": {"jobs": [rapid("TestC03Protocol", 1500, 10000), rapid("TestC03Engine", 20000, 60000), enum("TestC03AllPairs")]},
+    "C03": {"jobs": [rapid("TestC03Protocol", 1500, 10000), rapid("TestC03Engine", 8000, 60000), enum("TestC03AllPairs")]},
     "C04": {"jobs": [rapid("TestC04", 1500, 10000)]},
     "C05": {"jobs": [rapid("TestC05", 1500, 15000)]},
-    "C07": {"jobs": [rapid("TestC07", 20000, 60000), enum("TestC07Bounded")]},
+    "C07": {"jobs": [rapid("TestC07", 8000, 60000), enum("TestC07Bounded")]},
     "C09": {"jobs": [rapid("TestC09", 3000, 10000), enum("TestC09Truncations"), enum("TestC09TCPOptions")] +
             [fuzz("FuzzC09" + v) for v in ("icmp4", "icmp6", "udp4", "udp6", "tcp", "tcpparis", "sack", "Parser")]},
+    "C10": {"jobs": [enum("TestC10Single"), rapid("TestC10Multi", 2500, 8000)]},
     "C06": {"jobs": [rapid("TestC06", 1200, 8000), enum("TestC06AllTTLs")]},
 }
